@@ -136,8 +136,8 @@ _USER_CACHE = {}
 
 
 def user_callback(pygam, kind, name):
-    """user-defined CallBack subclasses.  Hooks receive loop locals by argument name and must not have local
-    variables (validate_callback_data reads co_varnames)."""
+    """user-defined CallBack subclasses.  Hooks receive loop locals by argument name; their local variables are
+    their own business (kind 'locals')."""
     from pygam.callbacks import CallBack
     key = kind
     if key not in _USER_CACHE:
@@ -181,6 +181,22 @@ def user_callback(pygam, kind, name):
                 def on_loop_end(self, _, diff, coef_new):
                     return dict(h='e', k=_, diff=float(diff))
             _USER_CACHE[key] = Both
+        elif kind == 'locals':
+            class WithLocals(CallBack):
+                def __init__(self, name):
+                    super(WithLocals, self).__init__(name=name)
+
+                def on_loop_start(self, _, mu):
+                    k = _
+                    Q = 'a local named like a later loop variable'
+                    nosuch = len(mu) + len(Q)
+                    return dict(h='s', k=k if nosuch else k)
+
+                def on_loop_end(self, _, diff):
+                    twice = 2 * diff
+                    halved = twice / 2
+                    return dict(h='e', k=_, diff=float(halved))
+            _USER_CACHE[key] = WithLocals
         elif kind == 'noargs':
             class NoArgs(CallBack):
                 def __init__(self, name):
@@ -195,15 +211,21 @@ def user_callback(pygam, kind, name):
 
 
 def hook_spec(cb):
-    """`u/<name>/<start>/<end>` item for the model: expects = co_varnames of the hook minus `self`
-    (read from the *unwrapped* function: validate_callback wraps with functools.wraps)"""
+    """`u/<name>/<start>/<end>` item for the model: per hook `<args>~<locals>` -- argument names
+    (co_varnames[:co_argcount] minus `self`) and local-variable names (the rest of co_varnames), read from the
+    *unwrapped* function (validate_callback wraps with functools.wraps)"""
     def names(attr):
         if not hasattr(cb, attr):
             return '-'
         f = getattr(cb, attr)
         f = getattr(f, '__wrapped__', f)
-        vs = [v for v in f.__code__.co_varnames if v != 'self']
-        return '+'.join(vs) if vs else '.'
+        code = f.__code__
+        args = [v for v in code.co_varnames[:code.co_argcount] if v != 'self']
+        locs = list(code.co_varnames[code.co_argcount:])
+        spec = '+'.join(args) if args else '.'
+        if locs:
+            spec += '~' + '+'.join(locs)
+        return spec
     return 'u/%s/%s/%s' % (str(cb), names('on_loop_start'), names('on_loop_end'))
 
 
@@ -485,7 +507,7 @@ def _oracle_builtin_logs(fail, logs, items, k, dev_exp, acc_exp, c_in, diffs, rt
     want = {}
     for it in items:
         name = it if isinstance(it, str) else it[2]
-        per = 1 if isinstance(it, str) else {'probe': 2, 'startonly': 1, 'endonly': 1, 'both': 2, 'noargs': 1}[it[1]]
+        per = 1 if isinstance(it, str) else {'probe': 2, 'startonly': 1, 'endonly': 1, 'both': 2, 'noargs': 1, 'locals': 2}[it[1]]
         want[name] = want.get(name, 0) + per
     for name, per in want.items():
         got = len(logs.get(name, []))
@@ -659,7 +681,7 @@ def group_configs(rng, desc, ref_diffs, lits, n_cfg):
     kref = len(ref_diffs)
     fin = [d for d in ref_diffs if math.isfinite(d) and d > 0]
     subsets = [list(c) for r in range(5) for c in itertools.combinations(BUILTINS, r)]
-    users = ['none', 'none', 'probe', 'startonly', 'endonly', 'both', 'shared', 'twice', 'noargs', 'default']
+    users = ['none', 'none', 'probe', 'startonly', 'endonly', 'both', 'locals', 'shared', 'twice', 'noargs', 'default']
     for j in range(n_cfg):
         # tol
         mode = rng.choice(['log', 'log', 'on', 'above', 'below', 'lit', 'edge'])
@@ -689,7 +711,7 @@ def group_configs(rng, desc, ref_diffs, lits, n_cfg):
             items = list(sub)
             if user == 'probe':
                 items.insert(rng.randint(0, len(items)), ['user', 'probe', 'probe'])
-            elif user in ('startonly', 'endonly', 'both', 'noargs'):
+            elif user in ('startonly', 'endonly', 'both', 'noargs', 'locals'):
                 items.insert(rng.randint(0, len(items)), ['user', user, 'u_' + user])
             elif user == 'shared':      # two user callbacks logging under one key
                 items.insert(rng.randint(0, len(items)), ['user', 'both', 'dup'])
@@ -748,7 +770,7 @@ def descs_for(ctx):
 def report_record(ctx, st, rec):
     """oracle findings of one record -> ctx.fail / suspected-defect counters"""
     for s in rec.get('suspected', []):
-        ctx.count('suspected-defect', s['kind'])
+        ctx.count('observed-quirk', s['kind'])
     for f in rec['fails']:
         sig = dict(stream=st, cls=rec['desc']['cls'], kind=f['kind'])
         ctx.fail(st, sig, dict(desc=rec['desc'], cfg=rec['cfg'], tol=b2f(rec['cfg']['tol'])), observed=f,
@@ -975,77 +997,85 @@ def stream_ctor(ctx):
                      observed=keys, expected=sorted(set(out.split())), oracle='keys of gam.logs_ after fit')
 
 
-def make_hook_callback(pygam, name, start_names, end_names, local=None):
-    """user CallBack whose hooks take the given argument names (None = hook absent)"""
+def make_hook_callback(pygam, name, start_names, end_names, start_locals=(), end_locals=()):
+    """user CallBack whose hooks take the given argument names (None = hook absent) and assign the given local variables"""
     from pygam.callbacks import CallBack
     ns = dict(CallBack=CallBack)
     src = ['class Dyn(CallBack):', '    def __init__(self):', '        super(Dyn, self).__init__(name=%r)' % name]
-    for hook, names in (('on_loop_start', start_names), ('on_loop_end', end_names)):
+    for hook, names, locs in (('on_loop_start', start_names, start_locals), ('on_loop_end', end_names, end_locals)):
         if names is None:
             continue
         src.append('    def %s(self%s):' % (hook, ''.join(', ' + n for n in names)))
-        if local and hook == local[0]:
-            src.append('        %s = 1' % local[1])
+        for lv in locs:
+            src.append('        %s = 1' % lv)
         src.append('        return 1')
     exec('\n'.join(src), ns)
     return ns['Dyn']()
 
 
 def stream_bind(ctx):
-    """argument binding: which loop locals a hook may name (every local of `_pirls` is probed), what happens otherwise"""
+    """argument binding: which loop locals a hook may name as *arguments* (every local of `_pirls` is probed), that
+    its local variables are of no concern, and what happens with an unknown argument"""
     pygam = common.import_pygam()
     st = 'bind.names'
-    ctx.stream(st, 'user hooks naming each local of _pirls / unknown names / several names: fit succeeds or raises AssertionError as the model says')
+    ctx.stream(st, 'user hooks with each local of _pirls / unknown names / several names as arguments, and arbitrary local variables: '
+                   'fit succeeds or raises AssertionError as the model says; hooks whose arguments are those of the built-ins must be accepted')
     rng = ctx.subrng('bind')
     cands = sorted((set(pirls_local_names(pygam)) | {'gam', 'nosuch', 'tol', 'coef_', 'logs_', 'callbacks', 'C', 'E', 'variables'}) - {'self'})
+    local_cands = cands + ['twice', 'tmp', 'k', 'out']
+    good = {'start': {'gam', 'y', 'mu'}, 'end': {'gam', 'y', 'mu', 'diff'}}    # what the built-in hooks themselves use
     X = np.array([[i / 16.0, ((i * 5) % 16) / 16.0] for i in range(32)])
     y = np.sin(3 * X[:, 0]) + X[:, 1]
     cases = []
     for hasC in (0, 1):
         for hook in ('start', 'end'):
             for nm in cands:
-                cases.append((hasC, hook, [nm], None))
-    n_multi = 60 if ctx.tier == 'quick' else 600
+                cases.append((hasC, hook, [nm], []))
+            for nm in local_cands:          # every name as a *local variable* of an otherwise valid hook
+                cases.append((hasC, hook, ['mu'] if hook == 'start' else ['diff'], [nm] if nm not in ('mu', 'diff') else ['twice']))
+    n_multi = 80 if ctx.tier == 'quick' else 800
     for j in range(n_multi):
         hook = rng.choice(['start', 'end'])
-        names = rng.sample(cands, rng.randint(0, 4))
-        cases.append((rng.randint(0, 1), hook, names, None))
+        pool = cands if rng.random() < 0.5 else sorted(good[hook])
+        names = rng.sample(pool, rng.randint(0, min(4, len(pool))))
+        locs = [v for v in rng.sample(local_cands, rng.randint(0, 3)) if v not in names]
+        cases.append((rng.randint(0, 1), hook, names, locs))
     ops = []
-    for hasC, hook, names, local in cases:
-        spec = '+'.join(names) if names else '.'
+    for hasC, hook, names, locs in cases:
+        a_ = '+'.join(names) if names else '.'
+        l_ = '+'.join(locs) if locs else '.'
+        spec = a_ + ('~' + l_ if locs else '')
         item = 'u/dyn/%s/%s' % ((spec, '-') if hook == 'start' else ('-', spec))
-        ops.append('C20 bind %s %d %s' % (hook, hasC, ' '.join(names)))
+        ops.append('C20 bind %s %d %s %s' % (hook, hasC, a_, l_))
         ops.append('C20 fit LinearGAM 2 %s %d =diffs,%s - %s %s' % (f2b(1e-30), hasC, item, f2b(1.0), f2b(0.5)))
     outs = ctx.driver.run(ops)
-    for i, (hasC, hook, names, local) in enumerate(cases):
+    for i, (hasC, hook, names, locs) in enumerate(cases):
         b_out, f_out = outs[2 * i], outs[2 * i + 1]
-        cb = make_hook_callback(pygam, 'dyn', names if hook == 'start' else None, names if hook == 'end' else None)
+        cb = make_hook_callback(pygam, 'dyn', names if hook == 'start' else None, names if hook == 'end' else None,
+                                start_locals=locs, end_locals=locs)
+        spec_seen = hook_spec(cb)
         terms = (pygam.s(0, n_splines=5, constraints='monotonic_inc') + pygam.l(1)) if hasC else (pygam.l(0) + pygam.l(1))
         g = pygam.LinearGAM(terms, max_iter=2, tol=1e-30, callbacks=['diffs', cb])
         txt, exc = fit_captured(g, X, y, None)
         impl = 'ok' if exc is None else type(exc).__name__
         model = 'ok' if f_out.startswith('ok ') else f_out
-        ctx.case(st, dict(hasC=hasC, hook=hook, names=names), nontrivial=True, sample=dict(op=ops[2 * i], model=b_out, impl=impl))
+        case = dict(hasC=hasC, hook=hook, args=names, locals=locs)
+        ctx.case(st, case, nontrivial=True, sample=dict(op=ops[2 * i], model=b_out, impl=impl, spec=spec_seen))
         ctx.count('binding outcome', impl)
+        ctx.count('hook local variables', len(locs))
         consistent = (b_out == 'ok') == (model == 'ok')
-        if impl != model or not consistent:
-            ctx.disagree(st, dict(hasC=hasC, hook=hook, names=names), impl, dict(bind=b_out, fit=f_out[:80]), 'binding outcome differs')
+        if impl != 'ok' and set(names) <= good[hook]:
+            # property oracle: a user callback whose hook takes only what the built-in hooks take is a valid callback
+            ctx.fail(st, dict(stream=st, kind='valid user hook rejected', locals=bool(locs)), case,
+                     observed=dict(outcome=impl, msg=str(exc)[:120]), expected='fit runs and logs one entry per iteration',
+                     oracle='LinearGAM(max_iter=2, callbacks=[diffs, user]).fit on 32 points')
+        elif impl != model or not consistent:
+            ctx.disagree(st, case, impl, dict(bind=b_out, fit=f_out[:80]), 'binding outcome differs')
         elif impl == 'ok':
             n = len(dict(g.logs_).get('dyn', []))
             if n != len(dict(g.logs_).get('diffs', [])):
-                ctx.fail(st, dict(stream=st, kind='user hook entries'), dict(hasC=hasC, hook=hook, names=names), observed=n,
+                ctx.fail(st, dict(stream=st, kind='user hook entries'), case, observed=n,
                          expected=len(dict(g.logs_).get('diffs', [])), oracle='one entry per iteration for a one-hook user callback')
-    # a hook with a local variable: co_varnames contains the local, so the callback is rejected (suspected defect)
-    cb = make_hook_callback(pygam, 'lv', None, ['diff'], local=('on_loop_end', 'twice'))
-    g = pygam.LinearGAM(pygam.l(0) + pygam.l(1), max_iter=2, callbacks=[cb])
-    txt, exc = fit_captured(g, X, y, None)
-    out = ctx.driver.run(['C20 fit LinearGAM 2 %s 0 =%s - %s %s' % (f2b(1e-4), hook_spec(cb), f2b(1.0), f2b(0.0))])[0]
-    impl = 'ok' if exc is None else type(exc).__name__
-    ctx.case(st, dict(local_variable=True), nontrivial=True)
-    if (impl == 'ok') != out.startswith('ok '):
-        ctx.disagree(st, dict(local_variable=True), impl, out, 'hook with a local variable')
-    if impl != 'ok':
-        ctx.count('suspected-defect', 'user hook with a local variable is rejected (%s): validate_callback_data uses co_varnames' % impl)
 
 
 def stream_invalid(ctx):
